@@ -459,6 +459,49 @@ def r07d(ctx, reach):
         ctx.proved("R07d", "-", "-", None, "no functools caches", "the package uses no functools.lru_cache/cache", nontrivial=False)
 
 
+def r07e(ctx):
+    m = ctx.model
+    ctx.rule("R07e", "no cross-call memo in diff/print code: a mutable container defined at class level (shared by all "
+                     "instances and all renderings) is never written through self in node, edit or formatter methods")
+    n = 0
+    roots = [q for q in ("graphtage.formatter.Formatter", "graphtage.tree.TreeNode", "graphtage.edits.AbstractEdit") if q in m.classes]
+    seen = set()
+    for base in roots:
+        for q in sorted(m.subclasses(base)):
+            if q in seen:
+                continue
+            seen.add(q)
+            shared = {}
+            for k in m.c3(q):
+                for name, (kind, v) in m.attrs[k].items():
+                    if kind == "assign" and isinstance(v, (ast.Dict, ast.List, ast.Set)) or \
+                            (kind == "assign" and isinstance(v, ast.Call) and call_name(v) in ("dict", "list", "set", "defaultdict", "OrderedDict")):
+                        shared.setdefault(name, k)
+            if not shared:
+                continue
+            for name, (kind, v) in m.attrs[q].items():
+                if kind != "def":
+                    continue
+                rebound = {self_attr(t) for s_ in walk_no_nested(v.node) if isinstance(s_, (ast.Assign, ast.AnnAssign))
+                           for t in (s_.targets if isinstance(s_, ast.Assign) else [s_.target]) if self_attr(t)}
+                for x in walk_no_nested(v.node):
+                    a = None
+                    if isinstance(x, ast.Subscript) and isinstance(x.ctx, (ast.Store, ast.Del)) and self_attr(x.value) in shared:
+                        a = self_attr(x.value)
+                    elif isinstance(x, ast.Call) and isinstance(x.func, ast.Attribute) and self_attr(x.func.value) in shared \
+                            and x.func.attr in ("append", "add", "update", "setdefault", "pop", "clear", "extend", "insert"):
+                        a = self_attr(x.func.value)
+                    if a is None or a in rebound or name in ("__init__", "__new__"):
+                        continue
+                    n += 1
+                    ctx.violation("R07e", v.file, v.short, x, f"shared {a} written in {v.short}",
+                                  f"`{norm(x, 50)}` writes the class-level container `{a}` (defined on {shared[a].rsplit('.', 1)[-1]}, "
+                                  f"shared by every instance and every call): output then depends on what earlier diffs in the "
+                                  f"same process printed")
+    if n == 0:
+        ctx.proved("R07e", "-", "-", None, "no shared memo", "no class-level mutable container is written through self in node/edit/formatter methods")
+
+
 def run(ctx):
     m = ctx.model
     cg = CallGraph(m)
@@ -470,5 +513,6 @@ def run(ctx):
     r07b(ctx, reach)
     r07c(ctx)
     r07d(ctx, reach)
+    r07e(ctx)
     ctx.assume("third-party libraries (scipy assignment, json/yaml/plist encoders, intervaltree iteration) are deterministic")
     ctx.assume("dict and Counter iteration is insertion-ordered (CPython >= 3.7); only set/frozenset order is hash-dependent")
